@@ -412,7 +412,7 @@ pub fn c04(cx: &mut Ctx) {
             v
         };
         for off in offsets {
-            for which in 0..2 {
+            for which in 0..3 {
                 // a preceding complete request of exactly `off` bytes when possible
                 let mut s = vec![];
                 if off >= 18 {
@@ -434,12 +434,33 @@ pub fn c04(cx: &mut Ctx) {
                     s.extend(b"GET / HTTP/1.1\r\n");
                     let fixed = b"X: \r\n".len();
                     s.extend(b"X: ");
-                    s.extend(std::iter::repeat(b'v').take(len - fixed));
+                    let mut val: Vec<u8> = std::iter::repeat(b'v').take(len - fixed).collect();
+                    if which == 2 {
+                        // multi-byte characters and invalid bytes, mostly where the window ends: the text of
+                        // the "line too long" error is the LOSSY rendering of the window
+                        if val.len() < 8 || !cx.rng.gen_bool(if cx.small() { 0.3 } else { 1.0 }) {
+                            continue;
+                        }
+                        let specials: [&[u8]; 6] = [&[0xFF], &[0xC3, 0xA9], &[0xE2, 0x82, 0xAC], &[0xC3], &[0x80], &[0xF0, 0x9F, 0x98]];
+                        for _ in 0..cx.rng.gen_range(1..4) {
+                            let sp = specials[cx.rng.gen_range(0..specials.len())];
+                            // position relative to the end of the window (the line starts at buffer offset 0
+                            // after the request line has been consumed: the window ends b - 3 bytes into val)
+                            let edge = (b - 3).min(val.len() - 1);
+                            let pos = if cx.rng.gen_bool(0.7) { edge.saturating_sub(cx.rng.gen_range(0..6)) } else { cx.rng.gen_range(0..val.len()) };
+                            for (k, byte) in sp.iter().enumerate() {
+                                if pos + k < val.len() {
+                                    val[pos + k] = *byte;
+                                }
+                            }
+                        }
+                    }
+                    s.extend(val);
                     s.extend(b"\r\n\r\n");
                 }
                 s.extend(b"GET /after HTTP/1.1\r\n\r\n");
                 let cuts = if cx.rng.gen_bool(0.3) { vec![] } else { gram::random_cuts(&mut cx.rng, s.len(), 2) };
-                let mut sc = script(51200, &ORACLE, 0, reads(&gram::cut(&s, &cuts)), if which == 0 { "line_len_reqline" } else { "line_len_header" });
+                let mut sc = script(51200, &ORACLE, 0, reads(&gram::cut(&s, &cuts)), if which == 0 { "line_len_reqline" } else if which == 1 { "line_len_header" } else { "line_len_header_lossy" });
                 sc["stop_on_error"] = json!(true);
                 cx.push(sc);
             }
